@@ -65,11 +65,17 @@ CHNA_OPTS = [("absent", None), ("open", 0), ("open", "n"), ("late", 0), ("late",
 FRAME_OPTS = [0, 1, 2, 3, "odd", "even"]
 
 
-def mk_samples(rng, frames, ch, bits):
+def mk_samples(rng, frames, ch, bits, f32exact=False):
     """floats: a mix of exactly representable values k/scale, boundary values, values needing quantisation and
-    values outside [-1, 1] (clipped by the encoder)."""
+    values outside [-1, 1] (clipped by the encoder). f32exact: multiples of 1/256 in [-1.2, 1.2] (exact in float32,
+    and their product with the 16-bit scale is exact in float32 too)."""
     scale = float(2 ** (bits - 1) - 1)
     a = np.empty((frames, ch))
+    if f32exact:
+        for i in range(frames):
+            for j in range(ch):
+                a[i, j] = rng.randint(-300, 300) / 256.0
+        return a
     for i in range(frames):
         for j in range(ch):
             k = rng.random()
@@ -106,19 +112,102 @@ def mk_case(rng, bits, ch, frames_opt, chna_opt, axml_opt, bext_opt, force, rate
         if where == "late":
             late.append((op, v))
     # partition of the frames into write calls (empty writes allowed), setters interleaved anywhere
+    mode = rng.random()
     parts, left = [], frames
-    while left > 0:
-        n = rng.randint(0, left) if rng.random() < 0.7 else left
-        parts.append(n)
-        left -= n
-    if rng.random() < 0.3:
+    if mode < 0.2:
+        # one-frame blocks only (interleave has a shortcut for single rows/columns)
+        parts = [1] * frames
+    else:
+        while left > 0:
+            n = rng.randint(0, left) if rng.random() < 0.7 else left
+            if rng.random() < 0.25:
+                n = min(left, 1)
+            parts.append(n)
+            left -= n
+    if mode < 0.35 or (0.5 < mode < 0.6):
+        # a zero-frame block in every position of the partition: first, between all blocks, last
+        z = [0]
+        for n in parts:
+            z += [n, 0]
+        parts = z
+    elif rng.random() < 0.3:
         parts.insert(rng.randint(0, len(parts)), 0)
     ops = [("w", n) for n in parts]
     for l in late:
         ops.insert(rng.randint(0, len(ops)), l)
     case["ops"] = ops
-    case["samples"] = mk_samples(rng, frames, ch, bits)
+    f32 = rng.random() < 0.25
+    case["samples"] = mk_samples(rng, frames, ch, bits, f32exact=f32)
+    # the memory layout in which each write() call receives its (frames x channels) block
+    case["layouts"] = [pick_layout(rng, n, ch, bits, f32) for n in parts]
     return case
+
+
+LAYOUTS = ["C", "F", "stackT", "T", "every-other-frame", "column-subset", "neg-rows", "neg-cols", "readonly",
+           "list", "float32"]
+
+
+def pick_layout(rng, n, ch, bits, f32exact):
+    if rng.random() < 0.3:
+        return "C"
+    l = rng.choice(LAYOUTS[1:])
+    if l == "list" and n == 0:
+        return "C"  # np.array([]) has no channel axis: write() asserts on shape[1]
+    if l == "float32" and not (f32exact and (ch > 1 or bits == 16)):
+        # mono blocks stay float32 through interleave and are scaled in float32: only 16 bit is exact there
+        return "F"
+    return l
+
+
+def make_block(layout, blk):
+    """the logical block `blk` (C-contiguous float64, frames x channels) in the given memory layout; returns
+    (object passed to write(), [(array that must stay unchanged, pristine copy)])"""
+    blk = np.array(blk, dtype=float)
+    n, ch = blk.shape
+    if layout == "C":
+        a = blk.copy()
+    elif layout == "F":
+        a = np.asfortranarray(blk)
+    elif layout == "stackT":
+        a = np.stack([blk[:, j].copy() for j in range(ch)]).T if ch else blk.copy()
+    elif layout == "T":
+        a = np.ascontiguousarray(blk.T).T
+    elif layout == "every-other-frame":
+        big = np.full((2 * n + 1, ch), 0.8125)
+        big[1::2] = blk
+        a = big[1::2]
+        return a, [(big, big.copy())]
+    elif layout == "column-subset":
+        big = np.full((n, 2 * ch + 1), -0.4375)
+        big[:, 1::2] = blk
+        a = big[:, 1::2]
+        return a, [(big, big.copy())]
+    elif layout == "neg-rows":
+        base = np.ascontiguousarray(blk[::-1])
+        a = base[::-1]
+        return a, [(base, base.copy())]
+    elif layout == "neg-cols":
+        base = np.ascontiguousarray(blk[:, ::-1])
+        a = base[:, ::-1]
+        return a, [(base, base.copy())]
+    elif layout == "readonly":
+        a = blk.copy()
+        a.flags.writeable = False
+    elif layout == "list":
+        a = blk.tolist()
+        return a, [(a, blk.tolist())]
+    elif layout == "float32":
+        a = blk.astype(np.float32)
+        assert np.array_equal(a.astype(float), blk)
+    else:
+        raise AssertionError(layout)
+    return a, [(a, a.copy())]
+
+
+def _same(a, b):
+    if isinstance(a, list):
+        return a == b
+    return a.dtype == b.dtype and a.shape == b.shape and np.array_equal(a, b)
 
 
 def case_features(case):
@@ -137,6 +226,17 @@ def case_features(case):
         else:
             f.append("%s:%s:%s" % (key, where, "odd" if len(v) & 1 else "even"))
     f.append("writes:%d" % min(4, sum(1 for op, _ in case["ops"] if op == "w")))
+    ws = [v for op, v in case["ops"] if op == "w"]
+    for l in sorted(set(case.get("layouts", []))):
+        f.append("layout:" + l)
+    if case["ch"] > 1 and 1 in ws:
+        f.append("block:one-frame-multichannel")
+    if ws and ws[0] == 0:
+        f.append("block:zero-frame-first")
+    if len(ws) > 1 and ws[-1] == 0:
+        f.append("block:zero-frame-last")
+    if 0 in ws[1:-1]:
+        f.append("block:zero-frame-middle")
     return f
 
 
@@ -145,6 +245,7 @@ def case_repr(case):
     return dict(bits=case["bits"], channels=case["ch"], rate=case["rate"], forceBw64=case["force"],
                 at_open={k: _vrepr(v) for k, v in case["open"].items()},
                 ops=[(op, _vrepr(v)) for op, v in case["ops"]],
+                write_layouts=list(case.get("layouts", [])),
                 samples=case["samples"].tolist())
 
 
@@ -158,9 +259,10 @@ def _vrepr(v):
 # the real code
 
 
-def real_write(case, close=True, snapshots=False):
-    """Run the real writer. Returns (final bytes, [unclosed buffer after __init__ and after each op],
-    [encoded bytes of each write call])."""
+def real_write(case, close=True, snapshots=False, layouts=None):
+    """Run the real writer, handing each write() call its block in the case's memory layout (or `layouts`).
+    Returns (final bytes, [unclosed buffer after __init__ and after each op]); write() calls that modified their
+    argument are listed in case["arg_modified"]."""
     from ear.fileio.bw64 import Bw64Writer
     from ear.fileio.bw64.chunks import FormatInfoChunk
 
@@ -169,11 +271,19 @@ def real_write(case, close=True, snapshots=False):
     o = case["open"]
     w = Bw64Writer(f, fmt, chna=mk_chna(o["chna"]), axml=o["axml"], bext=o["bext"], forceBw64=case["force"])
     snaps = [f.getvalue()] if snapshots else []
-    pos = 0
+    pos, wi = 0, 0
+    if layouts is None:
+        layouts = case.get("layouts")
+    case["arg_modified"] = []
     for op, v in case["ops"]:
         if op == "w":
-            w.write(case["samples"][pos:pos + v])
+            layout = layouts[wi] if layouts else "C"
+            arg, keep = make_block(layout, case["samples"][pos:pos + v])
+            w.write(arg)
+            if not all(_same(a, b) for a, b in keep):
+                case["arg_modified"].append(dict(write_index=wi, layout=layout, frames=v))
             pos += v
+            wi += 1
         elif op == "sa":
             w.axml = v
         elif op == "sb":
@@ -185,6 +295,60 @@ def real_write(case, close=True, snapshots=False):
     if close:
         w.close()
     return f.getvalue(), snaps
+
+
+def layout_predicate(case, data):
+    """None if the file does not depend on the memory layout of the blocks and write() left its arguments alone,
+    else (what, detail, tags) naming a concrete block and layout."""
+    if case.get("arg_modified"):
+        return ("write() modified its argument", case["arg_modified"][0], ["write-modifies-argument"])
+    layouts = case.get("layouts") or []
+    if all(l == "C" for l in layouts):
+        return None
+    ref, _ = real_write(case, layouts=["C"] * len(layouts))
+    if ref == data:
+        return None
+    # which block? give each non-C block its layout on its own
+    ws = [v for op, v in case["ops"] if op == "w"]
+    pos = 0
+    for i, l in enumerate(layouts):
+        if l != "C":
+            one = ["C"] * len(layouts)
+            one[i] = l
+            try:
+                d, _ = real_write(case, layouts=one)
+            except Exception as e:
+                d = repr(e)
+            if d != ref:
+                blk = case["samples"][pos:pos + ws[i]]
+                return ("written bytes depend on the memory layout of the block passed to write()",
+                        dict(write_index=i, layout=l, block=blk.tolist(), bits=case["bits"],
+                             first_difference=_first_diff(ref, d)), ["layout-dependent"])
+        pos += ws[i]
+    return ("written bytes depend on the memory layouts of the blocks passed to write()",
+            dict(layouts=layouts, first_difference=_first_diff(ref, data)), ["layout-dependent"])
+
+
+def predicates(case, data):
+    """round-trip predicate, then the layout predicate; when both fail the layout report (which names the block and
+    its layout) is given, with the round-trip failure attached"""
+    rt = roundtrip_predicate(case, data)
+    try:
+        lay = layout_predicate(case, data)
+    except Exception as e:
+        lay = ("writer raised", "%s: %s" % (type(e).__name__, e), ["writer-exception"])
+    if rt and lay and isinstance(lay[1], dict):
+        d = dict(lay[1])
+        d["round_trip"] = "%s: %s" % (rt[0], str(rt[1])[:200])
+        return (lay[0], d, list(lay[2]) + list(rt[2]))
+    return rt or lay
+
+
+def _first_diff(a, b):
+    if not isinstance(b, bytes):
+        return b
+    n = next((i for i in range(min(len(a), len(b))) if a[i] != b[i]), min(len(a), len(b)))
+    return dict(offset=n, c_contiguous=a[n:n + 8].hex(), this_layout=b[n:n + 8].hex(), lengths=(len(a), len(b)))
 
 
 ERR_PATTERNS = [
@@ -278,7 +442,7 @@ def chna_val(ids):
 
 
 def write_line(case, closed, nops=None):
-    from ear.fileio.bw64.utils import interleave, encode_pcm_samples
+    from ear.fileio.bw64.utils import encode_pcm_samples
 
     o = case["open"]
     parts = ["write %d %d %d %d %d %s %s %s" % (int(closed), int(case["force"]), case["ch"], case["rate"], case["bits"],
@@ -290,7 +454,10 @@ def write_line(case, closed, nops=None):
             blk = case["samples"][pos:pos + v]
             pos += v
             # PCM encoding is C16's subject: the model takes the encoded bytes of each write call
-            enc = bytes(encode_pcm_samples(interleave(blk), case["bits"])) if v else b""
+            # (the interleaved order is the row-major flattening of the logical frames x channels block; the Lean
+            # writer has no notion of memory layout)
+            flat = np.ascontiguousarray(blk, dtype=float).reshape(-1)
+            enc = bytes(encode_pcm_samples(flat, case["bits"])) if v else b""
             parts.append("w " + val(enc))
         elif op == "sc":
             parts.append("sc " + chna_val(v))
@@ -498,7 +665,7 @@ class C09(Spec):
                     ctx.disagree("Bw64Reader parse vs Earverif.Bw64.readFile", dict(file=data.hex()), m, canon_real(r))
                 if ok:
                     ctx.validated()
-            bad = roundtrip_predicate(case, data)
+            bad = predicates(case, data)
             if bad:
                 ctx.hit(bad[0], case_repr(case), bad[1], bad[2])
 
@@ -519,7 +686,12 @@ class C09(Spec):
                            rng.random() < 0.5)
             ctx.case(("search", repr(case_repr(case))), True)
             ctx.count("search:roundtrip")
-            bad = roundtrip_predicate(case)
+            try:
+                bad = predicates(case, real_write(case)[0])
+            except Exception as e:
+                bad = ("writer raised", "%s: %s" % (type(e).__name__, e), ["writer-exception"])
+            for l in set(case["layouts"]):
+                ctx.count("search:layout:" + l)
             if bad:
                 ctx.hit(bad[0], case_repr(case), bad[1], bad[2])
 
